@@ -137,7 +137,7 @@ func runC11(r *Run) {
 	r.Result.Rule = "scenario = server with the bundled in-memory peer store (wrapped by a recorder); announces with ports 1..65535, implied_port on/off, missing port, IPv4/IPv6/v4-mapped sources (same IP re-announcing, both representations of one IPv4), several infohashes, interleaved with get_peers; bursts of first announces for a brand-new infohash delivered back to back (stores overlap) and concurrent first stores on the bundled peer store directly; carrying every want combination from either family; non-trivial = get_peers reply that carries values"
 	n := r.n(40, 800)
 	for i := 0; i < n; i++ {
-		sc := r.newSrvScen(srvOpts{noSecurity: true, peerStore: true, callback: i%3 == 0})
+		sc := r.newSrvScen(srvOpts{noSecurity: true, peerStore: true, callback: i%3 == 0, defaultWant: i%2 == 1})
 		sc.announceHistory(50)
 		r.Result.TracesValidated++
 		if i < 2 {
